@@ -203,11 +203,17 @@ def apply(carrier, cur, op):
         kw = {key: dec(v) for key, v in op["changes"]}
         if op.get("allow_custom") is not None:
             kw["allow_custom"] = op["allow_custom"]
-        if carrier == "object":
+        api = op.get("api")
+        if api == "toplevel":
+            return stix2.new_version(cur, **kw)
+        if carrier == "object" and api != "function":
             return cur.new_version(**kw)
         return stix2.versioning.new_version(cur, **kw)
     if k == "revoke":
-        if carrier == "object":
+        api = op.get("api")
+        if api == "toplevel":
+            return stix2.revoke(cur)
+        if carrier == "object" and api != "function":
             return cur.revoke()
         return stix2.versioning.revoke(cur)
     # objects of classes with the markings mix-in through their methods, everything else through the functions
